@@ -183,17 +183,16 @@ def viol_fp(vtype, detail, bodies):
 def part_s(tier, exe, syms, ev, findings, dl, stats):
     jobs = core.NCPU
     scratch = tempfile.mkdtemp(prefix="vs", dir=drv.SCRATCH_ROOT if os.path.isdir(drv.SCRATCH_ROOT) else None)
-    ident = [(b, b) for b in BODIES]
-    withreg = [("reg", b) for b in BODIES if b != "reg"]
-    ring = [("spec", "kin"), ("kin", "basic"), ("basic", "adv"), ("adv", "trn"), ("trn", "inv"), ("inv", "err"), ("err", "cpp"), ("cpp", "spec"), ("trm", "spec")]
     allpairs = list(itertools.combinations_with_replacement(BODIES, 2))
     if tier == "quick":
-        plan = [(0, allpairs), (1, ident + withreg + ring), (1, [("reg", "spec", "cpp")]), (2, [("reg", "reg"), ("reg", "reg", "reg")]), (3, [("reg", "reg")])]
+        b1 = [("reg", "reg"), ("spec", "spec"), ("basic", "basic"), ("inv", "inv"), ("err", "err"), ("cpp", "cpp"), ("kin", "kin"), ("trm", "trm"),
+              ("reg", "spec"), ("reg", "cpp"), ("reg", "err"), ("spec", "kin"), ("inv", "err"), ("trm", "spec")]
+        plan = [(0, allpairs), (1, b1), (1, [("reg", "reg", "reg")]), (2, [("reg", "reg")])]
     else:
-        plan = [(0, allpairs), (1, allpairs), (1, [("reg", "spec", "cpp"), ("spec", "kin", "basic"), ("load", "load")]),
+        plan = [(0, allpairs), (1, allpairs), (1, [("reg", "reg", "reg"), ("reg", "spec", "cpp"), ("spec", "kin", "basic"), ("load", "load")]),
                 (2, [("reg", "reg"), ("reg", "reg", "reg"), ("reg", "spec"), ("reg", "cpp"), ("spec", "spec"), ("spec", "cpp"), ("basic", "basic"),
-                     ("inv", "inv"), ("err", "err"), ("spec", "kin"), ("err", "spec")]),
-                (3, [("reg", "reg"), ("reg", "reg", "reg")])]
+                     ("inv", "inv"), ("err", "err"), ("err", "spec"), ("spec", "kin")]),
+                (3, [("reg", "reg")])]
     done = set()
     cand = {}     # fingerprint -> (what, bodies, devs)
     try:
